@@ -58,6 +58,10 @@ CHECKS = {
    technique="stateful property-based testing in the deterministic daemon simulation with a reference cache: generated partitions/orderings of instance record sets into packets, PTR-only arrivals with a scripted responder answering the daemon's follow-up queries, and go-away/come-back histories; completeness invariant at the end of every step",
    text="Exploration: 3e4 (quick) / 9e5 (thorough) generated arrival histories (~2 complete sets and ~1 follow-up round per case). Invariant at the end of every step: an instance whose PTR, SRV, TXT and an address are live in the lower-bound reference cache since before the previous step has been reported by ServiceFound and a ServiceResolved equal to the cache's view (host, port, address set, TXT). Follow-up: an instance found with only its PTR is asked for, by its exact label sequence, within 500 ms.",
    note="Trusted: simulation hooks, refdns, reference cache. Known finding: labels containing dots/backslashes are re-encoded with other label boundaries in follow-up queries."),
+ "C17": dict(engine=E3, design="6/C17",
+   technique="stateful property-based testing in the deterministic daemon simulation with a reference cache and forced wake-ups at model expiries and timeouts: generated resolve_hostname / stop / responder-answer histories in every letter-case variant",
+   text="Exploration: 2.5e4 (quick) / 7e5 (thorough) generated hostname-resolution histories (~1.6 AddressesFound events per case). AddressesFound: every address is an unexpired one received for that name (case-insensitive) and tagged only with interfaces it was learned on; every live address is reported by the end of the next step; AddressesRemoved never while a copy has more than a second left and delivered by the step after expiry; first query asks A and AAAA; refresh query at exactly 80 % of an address's life; SearchTimeout then final SearchStopped exactly at the timeout; no query after the end.",
+   note="Trusted: simulation hooks, refdns, reference cache. One search per host name at a time. Known finding: a goodbye for an uncached address is reported as found."),
 }
 
 def check_entry(pid, c):
